@@ -38,10 +38,12 @@ func (bla *BucketLeapArray) NewEmptyBucket() interface{} {
 }
 
 func (bla *BucketLeapArray) ResetBucketTo(bw *BucketWrap, startTime uint64) *BucketWrap {
-	vhook.Yield(110)
-	atomic.StoreUint64(&bw.BucketStart, startTime)
+	// Clear the counters before publishing the new start time: a reader that already sees
+	// the new BucketStart must never see counts recorded under the previous one.
 	mb := bw.Value.Load().(*MetricBucket)
 	mb.reset()
+	vhook.Yield(110)
+	atomic.StoreUint64(&bw.BucketStart, startTime)
 	return bw
 }
 
